@@ -76,3 +76,10 @@ func ZZCheckEffective(eff, ineff, tgt time.Time) bool { return checkEffective(ef
 // ZZClearLog forgets the events recorded so far (registration itself calls the
 // constructor once to check it yields an implementation).
 func ZZClearLog() { zzLog = nil }
+
+// ZZSetPanicsEarly makes a panicking stub panic in CheckApplies instead of Execute.
+func ZZSetPanicsEarly(id int, early bool) {
+	if b := zzBehav[id]; b != nil {
+		b.PanicsEarly = early
+	}
+}
